@@ -57,6 +57,8 @@ pub enum FolderFault {
     NameIsDir,
     StaleFile,
     Enospc,
+    /// the target file already exists and is read-only (needs an unprivileged worker)
+    TargetFileReadOnly,
 }
 
 /// The operation alphabet. Slots (`sc`, `it`) index simulator-owned tables; an operation whose
